@@ -35,7 +35,7 @@ pub fn cfg_for(prop: &'static str) -> FsxCfg {
             close_volume: 2,
             open_volume: 2,
             open_root: 2,
-            open_dir: 4,
+            open_dir: 9,
             change_dir: 1,
             close_dir: 1,
             find: 0,
@@ -44,7 +44,7 @@ pub fn cfg_for(prop: &'static str) -> FsxCfg {
             modes: [1, 3, 3, 3, 3, 3],
             ..Profile::mixed()
         },
-        bias: VolBias { stale: true, tight: prop == "C10", ..VolBias::default() },
+        bias: VolBias { stale: true, tight: prop == "C10", full_dirs: true, ..VolBias::default() },
         multi: false,
         steps: (1, 28),
         ..base
@@ -139,6 +139,21 @@ pub fn run_case(cfg: &FsxCfg, case: &Case, acc: &mut Acc, known: &[KnownFinding]
             return Ok(());
         }
         spans.push((info.log_start, info.log_end, info.kind));
+        if info.created && info.ok {
+            if let (Some(d), Some(slot)) = (info.dir_node, info.slot) {
+                let sub = it.nodes[d].parent.is_some();
+                if sub {
+                    acc.class("hist:create-in-sub-directory");
+                }
+                if let Some((_, lay)) = lays.iter().find(|l| l.0 == slot) {
+                    let f0 = lay.fat_start(0);
+                    let grew = it.disk.0.borrow().log[info.log_start..info.log_end].iter().any(|r| r.block >= f0 && r.block < f0 + lay.fat_sectors);
+                    if grew {
+                        acc.class(if sub { "hist:sub-directory-grew-on-create" } else { "hist:root-directory-grew-on-create" });
+                    }
+                }
+            }
+        }
         if prop == "C09" {
             // a modification of a file ends the validity of its snapshots
             let modifies = info.write.is_some() || info.truncated || info.deleted || (info.kind == "Write" && !info.ok);
